@@ -198,7 +198,9 @@ def gen_scenario(r: random.Random, task: Optional[str] = None, n_frames: Optiona
     for fr in frames:
         for e in fr.ests:
             while e["score"] in seen_scores:
-                e["score"] = round(e["score"] * 0.999 + 1e-4, 6)
+                # strictly decreasing, so it terminates (the earlier contraction s*0.999+1e-4 has the fixed point 0.1 and
+                # looped forever once rounding stopped it moving: found when a thorough C07 shard never returned)
+                e["score"] = round(e["score"] - 1e-6, 6)
             seen_scores.add(e["score"])
 
     # ---- evaluation config -------------------------------------------------------------
